@@ -85,7 +85,7 @@ PROPS = {
 }
 PROPS['C18'] = dict(modules=['Hagall.Props.C18'], profiles=['latency', 'mixed'], n=(240, 4000), focus={'signedLatency', 'pingResp'},
                     tools=['drive', 'extract', 'wire'], extra=['latency_stats', 'wire_harness'], topics=slice_of(['signedLatency', 'pingResp', 'ping'], outs={'pingReq', 'latencyResp', 'error', 'pingResp'}))
-PROPS['C19'] = dict(modules=['Hagall.Props.C19'], profiles=['malformed', 'mixed'], n=(160, 3000), focus={'receipt'}, tools=['drive', 'extract', 'receipts', 'receipts-nocgo', 'wire'],
+PROPS['C19'] = dict(modules=['Hagall.Props.C19', 'Hagall.Props.C19Valid'], profiles=['malformed', 'mixed'], n=(160, 3000), focus={'receipt'}, tools=['drive', 'extract', 'receipts', 'receipts-nocgo', 'wire'],
                     extra=['receipts_harness', 'wire_harness'], topics=slice_of(['receipt', 'drain'], kinds=[]))
 PROPS['C15'] = dict(modules=['Hagall.Props.C15'], profiles=['mixed'], n=(20, 20), focus=None, tools=['drive', 'extract', 'auth'],
                     extra=['auth_harness'], topics=slice_of([], kinds=[]))
